@@ -7,6 +7,17 @@ use super::{get_one_attribute, parsing};
 pub fn check_attributes(derive_input: &DeriveInput) -> Result<(), Error> {
     let borsh = get_one_attribute(&derive_input.attrs)?;
 
+    if let syn::Data::Enum(ref data) = derive_input.data {
+        for variant in &data.variants {
+            if let Some(attr) = variant.attrs.iter().find(|attr| attr.path() == BORSH) {
+                return Err(syn::Error::new_spanned(
+                    attr,
+                    "`borsh` attributes are not supported on enum variants",
+                ));
+            }
+        }
+    }
+
     if let Some(attr) = borsh {
         attr.parse_nested_meta(|meta| {
             if meta.path != USE_DISCRIMINANT && meta.path != INIT && meta.path != CRATE {
